@@ -23,6 +23,7 @@ type SpecExpr struct {
 	Go   ast.Expr
 	Subs map[string]*SpecExpr
 	Src  string
+	Pats []*SpecExpr // explicit triggers of a quantifier
 }
 
 func topLevelIndex(s, tok string) int {
@@ -66,7 +67,23 @@ func parseSpec(s string) (*SpecExpr, error) {
 				return nil, fmt.Errorf("%s without '::'", q)
 			}
 			var vars []specParam
-			for _, v := range strings.Split(s[len(q):i], ",") {
+			binders := s[len(q):i]
+			var pats []*SpecExpr
+			if b := strings.Index(binders, "{"); b >= 0 {
+				e := strings.LastIndex(binders, "}")
+				if e < b {
+					return nil, fmt.Errorf("unbalanced trigger braces")
+				}
+				for _, ps := range splitTopLevel(binders[b+1:e], ',') {
+					pe, err := parseSpec(ps)
+					if err != nil {
+						return nil, err
+					}
+					pats = append(pats, pe)
+				}
+				binders = binders[:b]
+			}
+			for _, v := range strings.Split(binders, ",") {
 				fs := strings.Fields(v)
 				if len(fs) != 2 {
 					return nil, fmt.Errorf("bad binder %q", v)
@@ -77,7 +94,7 @@ func parseSpec(s string) (*SpecExpr, error) {
 			if err != nil {
 				return nil, err
 			}
-			return &SpecExpr{Kind: q, Vars: vars, A: body, Src: s}, nil
+			return &SpecExpr{Kind: q, Vars: vars, A: body, Src: s, Pats: pats}, nil
 		}
 	}
 	if i := topLevelIndex(s, "<==>"); i >= 0 {
@@ -205,6 +222,26 @@ func parseSpec(s string) (*SpecExpr, error) {
 	return &SpecExpr{Kind: "go", Go: e, Subs: subs, Src: s}, nil
 }
 
+func splitTopLevel(s string, sep byte) []string {
+	var parts []string
+	depth := 0
+	start := 0
+	for i := 0; i < len(s); i++ {
+		switch s[i] {
+		case '(', '[', '{':
+			depth++
+		case ')', ']', '}':
+			depth--
+		default:
+			if s[i] == sep && depth == 0 {
+				parts = append(parts, s[start:i])
+				start = i + 1
+			}
+		}
+	}
+	return append(parts, s[start:])
+}
+
 func isIdentChar(c byte) bool {
 	return c == '_' || c >= '0' && c <= '9' || c >= 'a' && c <= 'z' || c >= 'A' && c <= 'Z'
 }
@@ -320,6 +357,10 @@ func (env *SpecEnv) eval(se *SpecExpr) SV {
 		env.binders++
 		env.vc.noDefine++
 		body := env.term(se.A)
+		var patTerms []string
+		for _, pe := range se.Pats {
+			patTerms = append(patTerms, env.asTerm(env.eval(pe), "trigger").E)
+		}
 		env.vc.noDefine--
 		env.binders--
 		for k, o := range saved {
@@ -332,7 +373,11 @@ func (env *SpecEnv) eval(se *SpecExpr) SV {
 		rng := And(ranges...)
 		var e string
 		if se.Kind == "forall" {
-			e = fmt.Sprintf("(forall (%s) %s)", strings.Join(binders, " "), Implies(rng, body).E)
+			inner := Implies(rng, body).E
+			if len(patTerms) > 0 {
+				inner = fmt.Sprintf("(! %s :pattern (%s))", inner, strings.Join(patTerms, " "))
+			}
+			e = fmt.Sprintf("(forall (%s) %s)", strings.Join(binders, " "), inner)
 		} else {
 			e = fmt.Sprintf("(exists (%s) %s)", strings.Join(binders, " "), And(rng, body).E)
 		}
@@ -800,6 +845,22 @@ func (env *SpecEnv) ident(name string) SV {
 			p := fr.env[allocHit].(PtrVal)
 			return SV{V: vc.load(env.st, p), T: allocHit.Type().(*types.Pointer).Elem()}
 		}
+		// source-level local kept in a register: resolved through go/ssa debug references
+		var dbg ssa.Value
+		for _, b := range fr.fn.Blocks {
+			for _, ins := range b.Instrs {
+				if d, ok := ins.(*ssa.DebugRef); ok && !d.IsAddr {
+					if idn, ok := d.Expr.(*ast.Ident); ok && idn.Name == name {
+						if _, have := fr.env[d.X]; have {
+							dbg = d.X
+						}
+					}
+				}
+			}
+		}
+		if dbg != nil {
+			return SV{V: fr.env[dbg], T: dbg.Type()}
+		}
 		// SSA register name
 		for _, b := range fr.fn.Blocks {
 			for _, ins := range b.Instrs {
@@ -929,6 +990,9 @@ func (env *SpecEnv) field(a SV, name string) SV {
 	}
 	if bo, ok := v.(BuilderObj); ok && name == "len" {
 		return SV{V: bo.Len, T: types.Typ[types.Int]}
+	}
+	if isNamed(T, "strings", "Builder") && name == "len" {
+		return SV{V: vc.idx(0), T: types.Typ[types.Int]} // zero-value builder
 	}
 	obj, index, _ := types.LookupFieldOrMethod(T, true, env.typesPkg(), name)
 	if obj == nil {
@@ -1127,6 +1191,16 @@ func (env *SpecEnv) call(x *ast.CallExpr, subs map[string]*SpecExpr) SV {
 			r := env.expr(x.Args[0], subs)
 			env.st = saved
 			return r
+		case "entry":
+			// value at entry to the loop whose invariant is being evaluated
+			if env.fr == nil || env.fr.loopEntry == nil || env.fr.loopEntry[env.fr.curLoop] == nil {
+				sfail("entry() outside a loop invariant")
+			}
+			saved := env.st
+			env.st = env.fr.loopEntry[env.fr.curLoop]
+			r := env.expr(x.Args[0], subs)
+			env.st = saved
+			return r
 		case "len":
 			a := env.expr(x.Args[0], subs)
 			intT := types.Typ[types.Int]
@@ -1236,6 +1310,27 @@ func (env *SpecEnv) call(x *ast.CallExpr, subs map[string]*SpecExpr) SV {
 			sig := types.NewSignatureType(nil, nil, nil, nil, types.NewTuple(types.NewVar(0, nil, "r", u32), types.NewVar(0, nil, "g", u32), types.NewVar(0, nil, "b", u32), types.NewVar(0, nil, "a", u32)), false)
 			rets := vc.symMethodResults(env.st, si, "(image/color.Color).RGBA", sig, nil)
 			return SV{V: rets[k], T: u32}
+		case "zlib_ok", "zlib_len", "zlib_at":
+			// spec view of the assumed zlib contract: (stream, offset, nbytes[, j])
+			as := env.args(x, subs)
+			st0, _, ok := env.streamOf(as[0])
+			if !ok {
+				sfail("%s: first argument must be a stream", id.Name)
+			}
+			off := vc.iAdd(st0.Base, env.idxTerm(as[1]))
+			n := env.idxTerm(as[2])
+			is := vc.intSort(64)
+			switch id.Name {
+			case "zlib_ok":
+				return SV{V: And(vc.ufApp("zlib_header_ok", SBool, st0.Data, off, n), vc.ufApp("zlib_body_ok", SBool, st0.Data, off, n)), T: boolT}
+			case "zlib_len":
+				l := vc.ufApp("zlib_inflate_len", is, st0.Data, off, n)
+				l.Signed = true
+				return SV{V: l, T: types.Typ[types.Int]}
+			default:
+				arr := vc.ufApp("zlib_inflate", ArrSort(is, vc.byteSort()), st0.Data, off, n)
+				return SV{V: Select(arr, env.idxTerm(as[3])), T: types.Typ[types.Uint8]}
+			}
 		case "recovered":
 			return SV{V: TBool(true), T: boolT}
 		case "Pow":
@@ -1326,6 +1421,30 @@ func (env *SpecEnv) call(x *ast.CallExpr, subs map[string]*SpecExpr) SV {
 				return env.callFuncVal(fv, f.T, x.Args, subs)
 			}
 			sfail("unknown method %s in %s", sel.Sel.Name, exprString(x))
+		}
+	}
+	if id, ok := x.Fun.(*ast.Ident); ok && env.fr != nil {
+		for f := env.fr; f != nil; f = f.parent {
+			if g, ok := f.ghost["fun:"+id.Name].(ghostFun); ok {
+				var ts []Term
+				for i, a := range x.Args {
+					sv := env.expr(a, subs)
+					T := vc.eng.lookupType(env.pkg, g.Args[i])
+					if sv.C != nil && T != nil {
+						ts = append(ts, vc.constOf(sv.C, T).(Term))
+					} else {
+						ts = append(ts, env.asTerm(sv, "ghost function argument"))
+					}
+				}
+				RT := vc.eng.lookupType(env.pkg, g.Res)
+				rs, ok := vc.sortOf(RT)
+				if !ok {
+					sfail("ghost function %s has non-scalar result", g.Name)
+				}
+				t := vc.ufApp("ghost!"+sanitize(vc.curFunc)+"!"+g.Name, rs, ts...)
+				t.Signed = isSigned(RT)
+				return SV{V: t, T: RT}
+			}
 		}
 	}
 	f := env.expr(x.Fun, subs)
